@@ -41,7 +41,18 @@ func renderBytes(bs []byte) string {
 	return fmt.Sprintf("d%016x.%d", fnv(bs), len(bs))
 }
 
-type runner struct{ vars map[int]*hll.Plus }
+type runner struct {
+	vars map[int]*hll.Plus
+	sets map[int]map[uint64]struct{} // the distinct hashes that went into each variable
+}
+
+func copySet(m map[uint64]struct{}) map[uint64]struct{} {
+	c := make(map[uint64]struct{}, len(m))
+	for k := range m {
+		c[k] = struct{}{}
+	}
+	return c
+}
 
 func (r *runner) Close() {}
 
@@ -198,6 +209,7 @@ func (r *runner) Op(t []string) string {
 			return "err"
 		}
 		r.vars[atoi(t[1])] = s
+		r.sets[atoi(t[1])] = map[uint64]struct{}{}
 		return "ok"
 	case t[0] == "add" && len(t) == 3:
 		s := r.v(t[1])
@@ -206,6 +218,7 @@ func (r *runner) Op(t []string) string {
 		}
 		for _, x := range h.Split(t[2]) {
 			addHash(s, atou(x))
+			r.sets[atoi(t[1])][atou(x)] = struct{}{}
 		}
 		return "ok"
 	case t[0] == "addr" && len(t) == 4:
@@ -214,6 +227,12 @@ func (r *runner) Op(t []string) string {
 			return "bad-op"
 		}
 		addStream(s, atou(t[2]), atoi(t[3]))
+		st := atou(t[2])
+		for i := 0; i < atoi(t[3]); i++ {
+			var z uint64
+			st, z = splitmixNext(st)
+			r.sets[atoi(t[1])][z] = struct{}{}
+		}
 		return "ok"
 	case t[0] == "merge" && len(t) == 3:
 		d, s := r.v(t[1]), r.v(t[2])
@@ -223,6 +242,9 @@ func (r *runner) Op(t []string) string {
 		if err := d.Merge(s); err != nil {
 			return "err"
 		}
+		for k := range r.sets[atoi(t[2])] {
+			r.sets[atoi(t[1])][k] = struct{}{}
+		}
 		return "ok"
 	case t[0] == "clone" && len(t) == 3:
 		s := r.v(t[2])
@@ -230,13 +252,28 @@ func (r *runner) Op(t []string) string {
 			return "bad-op"
 		}
 		r.vars[atoi(t[1])] = clone(s)
+		r.sets[atoi(t[1])] = copySet(r.sets[atoi(t[2])])
 		return "ok"
 	case t[0] == "count" && len(t) == 2:
 		s := r.v(t[1])
 		if s == nil {
 			return "bad-op"
 		}
-		return strconv.FormatUint(s.Count(), 10)
+		return strconv.FormatUint(s.Count(), 10) + " " + strconv.Itoa(len(r.sets[atoi(t[1])])) + " " + strconv.Itoa(int(hll.VerifDump(s).P))
+	case t[0] == "realx" && len(t) == 3:
+		// the real hash function (xxhash), default precision: n ordinary keys, then one given key
+		s := hll.NewDefaultPlus()
+		n := atoi(t[1])
+		key, err := h.UnHex(t[2])
+		if err != nil || n < 0 || n > 2000000 {
+			return "bad-op"
+		}
+		for i := 0; i < n; i++ {
+			s.Add([]byte("cpu,host=server-" + strconv.Itoa(i)))
+		}
+		c1 := s.Count()
+		s.Add(key)
+		return strconv.FormatUint(c1, 10) + " " + strconv.Itoa(n) + " " + strconv.FormatUint(s.Count(), 10) + " " + strconv.Itoa(n+1)
 	case t[0] == "dump" && len(t) == 2:
 		s := r.v(t[1])
 		if s == nil {
@@ -266,7 +303,9 @@ func (r *runner) Op(t []string) string {
 		}
 		out, st := unmarshalOf(s)
 		if out != nil {
+			set := copySet(r.sets[atoi(t[2])])
 			r.vars[atoi(t[1])] = out
+			r.sets[atoi(t[1])] = set
 		}
 		return st
 	case t[0] == "unmraw" && len(t) == 3:
@@ -283,6 +322,7 @@ func (r *runner) Op(t []string) string {
 		}
 		hll.VerifSetHash(&out, idHash)
 		r.vars[atoi(t[1])] = &out
+		r.sets[atoi(t[1])] = map[uint64]struct{}{}
 		return "ok"
 	case t[0] == "regs" && len(t) == 2:
 		s := r.v(t[1])
@@ -408,7 +448,7 @@ func gen(r *h.Rand, tier string, emit func([]string)) {
 		nv := 3 + r.Intn(3)
 		if r.Chance(0.2) {
 			ops = append(ops, "new 7 "+strconv.Itoa(h.Pick(r, []int{0, 3, 19, 25, 200})))
-			ops = append(ops, "unmraw 7 "+h.Pick(r, []string{"-", "0204", "020401000000000000000000", "021301000000000000000000000000000000", "020301000000000000000000000000000000", "0204000000001000000000000000000000000000000000", "02040100000000000000000000000000000000"}))
+			ops = append(ops, "unmraw 7 "+h.Pick(r, []string{"-", "0204", "0204010000000000000000", "021301000000000000000000000000000000", "020301000000000000000000000000000000", "0204000000001000000000000000000000000000000000", "02040100000000000000000000000000000000"}))
 		}
 		for v := 0; v < nv; v++ {
 			ops = append(ops, "new "+strconv.Itoa(v)+" "+strconv.Itoa(p))
@@ -485,6 +525,14 @@ func gen(r *h.Rand, tier string, emit func([]string)) {
 		}
 		args := strconv.Itoa(p) + " " + strconv.FormatUint(r.Uint64(), 10) + " " + strconv.Itoa(nA) + " " + strconv.Itoa(ov) + " " + strconv.FormatUint(r.Uint64(), 10) + " " + strconv.Itoa(nB)
 		ops = append(ops, "union "+args, "unionc "+args)
+		if r.Chance(0.25) { // a register of 32 or more (31+ zero bits below the index) on top of ordinary content
+			v := strconv.Itoa(r.Intn(nv))
+			x := (r.Uint64() >> uint(64-p) << uint(64-p)) | (r.Uint64()>>uint(p)>>uint(31+r.Intn(64-p-31+1)))
+			ops = append(ops, "addr "+v+" "+strconv.FormatUint(r.Uint64(), 10)+" "+strconv.Itoa(capN(2*m)), "count "+v, "add "+v+" "+strconv.FormatUint(x, 10), "count "+v, "regs "+v)
+		}
+		if c == 3 { // the real xxhash: a key whose hash has 31 zero bits below the 16 index bits
+			ops = append(ops, "realx 50000 "+h.HexS("cpu,host=server-862707449"))
+		}
 		if r.Chance(0.3) { // larger cardinalities for the error statistics
 			big := strconv.Itoa(p) + " " + strconv.FormatUint(r.Uint64(), 10) + " " + strconv.Itoa(capN(20*m)) + " 0 " + strconv.FormatUint(r.Uint64(), 10) + " " + strconv.Itoa(capN(10*m))
 			ops = append(ops, "union "+big, "unionc "+big)
@@ -494,5 +542,7 @@ func gen(r *h.Rand, tier string, emit func([]string)) {
 }
 
 func main() {
-	h.Main(h.Harness{Gen: gen, NewCase: func() h.CaseRunner { return &runner{vars: map[int]*hll.Plus{}} }})
+	h.Main(h.Harness{Gen: gen, NewCase: func() h.CaseRunner {
+		return &runner{vars: map[int]*hll.Plus{}, sets: map[int]map[uint64]struct{}{}}
+	}})
 }
